@@ -195,18 +195,24 @@ static bool handle_violation(Engine *e, const std::string &engine, const Plan &p
   double t0 = now_s();
   Outcome o1 = exec_isolated(e, plan, prop);
   if (!o1.violation) { printf("FLAKY seed=%llu first=%s second=OK\n", (unsigned long long)seed, inproc ? inproc->cls.c_str() : "crash"); fflush(stdout); return false; }
-  if (inproc && (inproc->cls != o1.cls || inproc->hash != o1.hash)) { printf("FLAKY seed=%llu first=%s/%016llx second=%s/%016llx\n", (unsigned long long)seed, inproc->cls.c_str(), (unsigned long long)inproc->hash, o1.cls.c_str(), (unsigned long long)o1.hash); fflush(stdout); return false; }
+  // The verdict (violation class + facts) must reproduce. The full trace hash normally does too; it legitimately does not when the code
+  // under test lets uninitialised stack contents (return addresses, saved pointers: ASLR-dependent) reach its output - which is itself
+  // a symptom the properties care about. Such violations are reported with trace_stable=0 instead of being discarded as machinery errors.
+  bool trace_stable = true;
+  if (inproc && inproc->cls != o1.cls) { printf("FLAKY seed=%llu first=%s/%016llx second=%s/%016llx\n", (unsigned long long)seed, inproc->cls.c_str(), (unsigned long long)inproc->hash, o1.cls.c_str(), (unsigned long long)o1.hash); fflush(stdout); return false; }
+  if (inproc && inproc->hash != o1.hash) trace_stable = false;
   Plan minp = plan;
   { Plan cp = e->concretise(plan, o1); if (cp.str() != plan.str()) { Outcome oc = exec_isolated(e, cp, prop); if (same_class(oc, o1)) { minp = cp; o1 = oc; } } }
   Plan start = minp;
   int execs = 0;
   if (do_shrink) { Shrinker s{e, prop, o1}; s.deadline = now_s() + g_shrink_seconds; minp = s.run(start); execs = s.execs; }
   Outcome a = exec_isolated(e, minp, prop), b = exec_isolated(e, minp, prop);
-  if (do_shrink && (!same_class(a, o1) || !same_class(b, o1) || a.hash != b.hash)) { minp = start; a = exec_isolated(e, minp, prop); b = exec_isolated(e, minp, prop); }   // fall back to the unshrunk plan
-  if (!same_class(a, o1) || !same_class(b, o1) || a.hash != b.hash) { printf("FLAKY seed=%llu minimised replay unstable %s/%016llx vs %s/%016llx\n", (unsigned long long)seed, a.cls.c_str(), (unsigned long long)a.hash, b.cls.c_str(), (unsigned long long)b.hash); fflush(stdout); return false; }
+  if (do_shrink && (!same_class(a, o1) || !same_class(b, o1))) { minp = start; a = exec_isolated(e, minp, prop); b = exec_isolated(e, minp, prop); }   // fall back to the unshrunk plan
+  if (same_class(a, o1) && same_class(b, o1) && a.hash != b.hash) trace_stable = false;
+  if (!same_class(a, o1) || !same_class(b, o1)) { printf("FLAKY seed=%llu minimised replay unstable %s/%016llx vs %s/%016llx\n", (unsigned long long)seed, a.cls.c_str(), (unsigned long long)a.hash, b.cls.c_str(), (unsigned long long)b.hash); fflush(stdout); return false; }
   std::string path = write_replay(replaydir, engine, minp, a, seed);
-  printf("VIOL prop=%s cls=%s replay=%s hash=%016llx seed=%llu recs_before=%zu recs_after=%zu shrink_execs=%d shrink_s=%.1f%s\n", a.prop.c_str(), a.cls.c_str(), path.c_str(), (unsigned long long)a.hash,
-         (unsigned long long)seed, plan.recs.size(), minp.recs.size(), execs, now_s() - t0, facts_str(a).c_str());
+  printf("VIOL prop=%s cls=%s replay=%s hash=%016llx seed=%llu recs_before=%zu recs_after=%zu shrink_execs=%d shrink_s=%.1f trace_stable=%d%s\n", a.prop.c_str(), a.cls.c_str(), path.c_str(), (unsigned long long)a.hash,
+         (unsigned long long)seed, plan.recs.size(), minp.recs.size(), execs, now_s() - t0, trace_stable ? 1 : 0, facts_str(a).c_str());
   if (!a.detail.empty()) { std::string d = a.detail.substr(0, 400); for (auto &c : d) if (c == '\n') c = '|'; printf("DETAIL %s\n", d.c_str()); }
   fflush(stdout);
   return true;
@@ -246,7 +252,8 @@ int main(int argc, char **argv) {
 
   if (cmd == "gen") {
     uint64_t r = strtoull(arg(argc, argv, "--run", "0").c_str(), nullptr, 10);
-    cfg.seed = mix64(cfg.master, r); Plan p = e->gen(cfg); fputs(p.str().c_str(), stdout); return 0;
+    cfg.seed = mix64(cfg.master, r); std::string rs = arg(argc, argv, "--runseed", ""); if (!rs.empty()) cfg.seed = strtoull(rs.c_str(), nullptr, 10);
+    Plan p = e->gen(cfg); printf("engine name=%s\n", engine.c_str()); fputs(p.str().c_str(), stdout); return 0;
   }
   if (cmd != "run") return 2;
 
